@@ -66,6 +66,8 @@ func main() {
 	switch f.Part {
 	case "model":
 		runModel(f, c)
+	case "meta":
+		runMetaPart(f, c)
 	default:
 		runSQLPart(f, c)
 	}
@@ -81,6 +83,8 @@ func (c *checker) runCase(k *kase) {
 		c.runTree(k)
 	case "query":
 		c.runQuery(k)
+	case "meta":
+		c.metaOne(k.SQL)
 	default:
 		vevid.Fatal("unknown case kind %q", k.Kind)
 	}
